@@ -538,6 +538,15 @@ fn one_case(rep: &mut Report, model: &mut Model, rng: &mut Rng, case_no: u64, si
         rep.count("rounds_losing_several_cache_files");
         rounds.push((fs, false));
     }
+    // the whole cache directory of the thread is lost (a clean-up, a restore of the log alone), the
+    // authority restarts, and the first thing that happens to the thread is a write: the code rebuilds
+    // every cache from the log before it appends, so every answer afterwards is the truth. This round
+    // is reported under its own signature and never shrunk: a single lost derived cache followed by
+    // appends is a recorded finding, the loss of ALL of them is handled and must stay so.
+    if !kinds.is_empty() {
+        rep.count("rounds_losing_every_cache_file_then_restart_and_appends");
+        rounds.push((kinds.iter().map(|k| Fault::Delete(k.clone())).collect(), true));
+    }
     // and one round for a seek index that is wrong where nobody looks when it is loaded: alone, and
     // with the messages+runs sidecar damaged so that the full-sidecar window read is the one that answers
     if frames_now > 256 && kinds.iter().any(|k| k == "seek.v1.jsonl") {
@@ -581,7 +590,8 @@ fn one_case(rep: &mut Report, model: &mut Model, rng: &mut Rng, case_no: u64, si
         // half of the rounds with later appends lose their caches while the authority is RUNNING (it
         // has appended to the thread before, so the next seq is in memory): the appends go on in the
         // same process. The other half restart the authority on the damaged caches first.
-        let live = *append_after && append_seed % 2 == 0;
+        let all_lost = *append_after && !kinds.is_empty() && faults.len() == kinds.len() && faults.iter().all(|f| matches!(f, Fault::Delete(_)));
+        let live = *append_after && append_seed % 2 == 0 && !all_lost;
         let grow_more = |s: &ContinuityStore| {
             let mut h2 = Hist { msgs: h.msgs.clone(), runs: h.runs + 1000 };
             let mut arng = Rng::new(append_seed);
@@ -638,7 +648,7 @@ fn one_case(rep: &mut Report, model: &mut Model, rng: &mut Rng, case_no: u64, si
             // shrink: which single fault (without the later appends) already reproduces it?
             // shrink to a 1-minimal set of faults (and the later appends) that still reproduces it
             let mut minimal: Option<String> = None;
-            if faults.len() > 1 || *append_after {
+            if (faults.len() > 1 || *append_after) && !all_lost {
                 let mut keep: Vec<bool> = vec![true; faults.len()];
                 let mut keep_appends = *append_after;
                 let reproduces = |keep: &Vec<bool>, keep_appends: bool| -> bool {
@@ -677,6 +687,8 @@ fn one_case(rep: &mut Report, model: &mut Model, rng: &mut Rng, case_no: u64, si
             }
             let cause = if faults.is_empty() {
                 "no-fault".to_string()
+            } else if all_lost {
+                "every-cache-file-lost+restart+appends".to_string()
             } else if let Some(m) = minimal {
                 m
             } else if faults.len() == 1 && !*append_after {
